@@ -130,6 +130,67 @@ func c12(c *Ctx) {
 			c.ruleMustPass(r, f, nil, lastSeg(d.to), callTo(d.to), nil, false)
 		}
 	}
+	// ---- C12.6 an index entry is reused (and its uniqueness probe skipped) only if ALL its columns are unchanged -----
+	r = "C12.6/index-entry-reuse"
+	if f := c.mustFn(r, sqlTxT+"deprecateIndexEntries"); f != nil {
+		n := 0
+		for _, in := range sites(f, func(x ssa.Instruction) bool {
+			mu, ok := x.(*ssa.MapUpdate)
+			return ok && strings.Contains(short(mu.Map.Type().String()), "map[uint32]struct{}")
+		}) {
+			n++
+			// dominating condition
+			var flag *ssa.Phi
+			for b := in.Block(); b != nil && flag == nil; b = b.Idom() {
+				id := b.Idom()
+				if id == nil || len(id.Instrs) == 0 {
+					continue
+				}
+				if ifi, ok := id.Instrs[len(id.Instrs)-1].(*ssa.If); ok {
+					if ph, ok := ifi.Cond.(*ssa.Phi); ok {
+						flag = ph
+					}
+				}
+			}
+			if flag == nil {
+				c.fail(r, fnName(f)+":reuse-flag", c.pos(in.Pos()), "an index entry is marked reusable without a per-column equality flag")
+				continue
+			}
+			okAcc := true
+			for i, e := range flag.Edges {
+				pred := flag.Block().Preds[i]
+				if !flag.Block().Dominates(pred) {
+					continue // loop entry edge
+				}
+				if !boolDependsOn(e, flag) {
+					okAcc = false
+				}
+			}
+			c.check(okAcc, r, fnName(f)+":reuse-flag-is-a-conjunction-over-all-columns", c.pos(in.Pos()),
+				"the flag carried around the column loop depends on its previous value (all columns must be equal)",
+				"the reuse flag is overwritten per column instead of accumulated: an index entry is reused (and the uniqueness probe of doUpsert skipped) when only the last indexed column is unchanged")
+			// the comparison feeding the flag is over the current and the new value of the column
+			cmp := len(sites(f, func(x ssa.Instruction) bool {
+				cc := callOf(x)
+				return cc != nil && cc.IsInvoke() && cc.Method.Name() == "Compare"
+			})) > 0
+			c.check(cmp, r, fnName(f)+":compares-current-and-new-values", c.pos(in.Pos()), "current and new column values are compared", "deprecateIndexEntries no longer compares current and new values")
+		}
+		if n == 0 {
+			c.undecided(r, fnName(f)+":reusable-marking", "no marking of reusable index entries found")
+		}
+	}
+	if f := c.mustFn(r, sqlTxT+"doUpsert"); f != nil {
+		// the only way to skip the uniqueness probe of a unique index is the reusable set computed above
+		for _, in := range sites(f, callTo(sqlTxT+"deprecateIndexEntries")) {
+			okk, d := errHandled(in)
+			c.check(okk, r, fnName(f)+":deprecateIndexEntries-error", c.pos(in.Pos()), d, d)
+		}
+	}
+
+	// ---- C12.7 constraints are evaluated against the current schema: catalog cache coherence (shared with C13.4) -------
+	c13CatalogCache(c, "C12.7/catalog-cache-coherence")
+
 	// ---- C12.4 failure aborts the transaction ----------------------------------------------------------------------------------
 	r = "C12.4/failure-aborts"
 	if f := c.mustFn(r, "embedded/sql.(*Engine).execPreparedStmts"); f != nil {
